@@ -8,9 +8,10 @@ from vf.spec import Ctx, Err, Ok, Program, Unspecified, canon, jtype, match_img
 PROP = "C01"
 SHARDS = {"quick": 8, "thorough": 16}
 TIME_CAP = {"quick": 70, "thorough": 900}
-REQUIRED = ["agree_accept", "agree_reject", "programs", "per_call_schema_programs", "per_call_validators_programs", "generic_programs", "node:ObjectMethod", "node:SimpleObjectMethod", "node:UnionByTypeMethod",
-            "node:UnionMethod", "node:OptionalMethod", "node:ListMethod", "node:ListCheckOnlyMethod", "node:TupleMethod", "node:SetMethod",
-            "node:LiteralMethod", "node:MappingMethod"]
+REQUIRED = ["agree_accept", "agree_reject", "programs", "per_call_schema_programs", "per_call_validators_programs", "generic_programs"]
+# compiled-tree node classes this workload is expected to reach: reported as coverage gaps when missing, never a verdict
+# (a renamed internal class must not turn into an alarm)
+EXPECTED_NODES = ["node:ObjectMethod", "node:SimpleObjectMethod", "node:UnionByTypeMethod", "node:UnionMethod", "node:OptionalMethod", "node:ListMethod", "node:ListCheckOnlyMethod", "node:TupleMethod", "node:SetMethod", "node:LiteralMethod", "node:MappingMethod"]
 RULE = ("programs: every type of constructor depth<=2 over 21 atoms x 13 constructors (sliced per shard; thorough: all) + seeded random "
         "TypeSpecs (depth<=4, objects<=5 fields incl. alias/flatten/pattern/additional/required/skip/none_as_undefined/Undefined/init=False/"
         "InitVar/dependent_required/class aliaser, recursion); data per program: type-relevant atoms, model-valid data, one-step boundary "
